@@ -10,21 +10,24 @@ Lemma call_end_resets_counter_spec : call_end_resets_counter = true.  Proof. vm_
 Lemma call_end_clears_last_completed_spec : call_end_clears_last_completed = true.  Proof. vm_compute. reflexivity. Qed.
 Lemma fresh_start_resets_counter_spec : fresh_start_resets_counter = true.  Proof. vm_compute. reflexivity. Qed.
 
-Definition good (s : ost) : Prop := task_idx s = 0 /\ comms_order s = wanted s.
+Lemma call_start_resets_counter_spec : call_start_resets_counter = true.  Proof. vm_compute. reflexivity. Qed.
+
+Definition good (s : ost) : Prop := comms_order s = wanted s.
 
 Lemma orun_good : forall h s, good s -> Forall (fun ob => let '(i, used, want) := ob in i = 0 /\ used = want) (orun s h).
 Proof.
-  induction h as [|o r IH]; intros s [H0 Hw]; cbn [orun]; [constructor|].
-  destruct o as [b|k]; cbn [ostep].
-  - rewrite setter_reaches_comms_spec. cbn [app]. apply IH. split; cbn; [assumption|reflexivity].
-  - rewrite call_end_resets_counter_spec. cbn [app]. constructor; [split; assumption|].
-    apply IH. split; cbn; [reflexivity|assumption].
+  induction h as [|o r IH]; intros s Hw; cbn [orun]; [constructor|].
+  destruct o as [b|k|k]; cbn [ostep].
+  - rewrite setter_reaches_comms_spec. cbn [app]. apply IH. reflexivity.
+  - rewrite call_end_resets_counter_spec, call_start_resets_counter_spec. cbn [app]. constructor; [split; [reflexivity|assumption]|].
+    apply IH. exact Hw.
+  - cbn [app]. apply IH. exact Hw.
 Qed.
 
-(* for every history of setter calls and map calls: every call numbers its chunks from 0 and the
-   distribution uses the value last set through the constructor or the setter *)
+(* for every history of setter calls, map calls and apply_async submissions: every map call numbers its chunks from 0
+   and the distribution uses the value last set through the constructor or the setter *)
 Theorem order_per_call : forall ctor h,
   Forall (fun ob => let '(i, used, want) := ob in i = 0 /\ used = want) (orun (oinit ctor) h).
 Proof.
-  intros. apply orun_good. unfold good, oinit. rewrite fresh_start_resets_counter_spec. split; reflexivity.
+  intros. apply orun_good. unfold good, oinit. reflexivity.
 Qed.
